@@ -836,6 +836,7 @@ pub fn run(input: &str, output: &str, opts: Opts) -> std::io::Result<i32> {
             // threads are noticed
             verif::run_collector_cycle();
             verif::run_collector_cycle();
+            emit(json!({"ev":"idle"}));
             emit(stats_event(&foreign));
         }
         emit(json!({"ev":"end","run":id,"misses":sc.misses,"hung":sc.hung}));
